@@ -258,7 +258,7 @@ def modules_tables() -> dict[str, list[str]]:
 	fn = _find_func(tree, 'Modules', 'load')
 	tries = [n for n in ast.walk(fn) if isinstance(n, ast.Try)]
 	if not tries:
-		return {'modulesLoadHandlers': [], 'modulesLoadRollbackCatch': []}
+		return {'modulesLoadHandlers': [], 'modulesLoadRollbackCatch': [], 'modulesLoadRechecks': []}
 	outer = [s for s in fn.body if isinstance(s, ast.Try)]
 	if len(outer) != 1 or len(tries) != 2 or outer[0].orelse or outer[0].finalbody:
 		raise TranslateError('Modules.load: expected one outer try with one nested try')
@@ -283,6 +283,7 @@ def modules_tables() -> dict[str, list[str]]:
 	return {
 		'modulesLoadHandlers': _handlers(outer[0], 'Modules.load', ()),
 		'modulesLoadRollbackCatch': [_catch_atom(h.type, 'Modules.load')],
+		'modulesLoadRechecks': ['true'],
 	}
 
 
@@ -438,6 +439,9 @@ def render(errs: list[tuple[str, str, bool]], bis: list[tuple[str, str | None]],
 	for name in ['interactiveInnerCatch', 'interactiveOuterCatch', 'modulesLoadRollbackCatch']:
 		L.append(f'def {name} : List Atom := [' + ', '.join(tables[name]) + ']')
 	L.append('')
+	L.append('/-- Modules.load looks the module up again after the library modules were loaded -/')
+	L.append(f"def modulesLoadRechecks : Bool := {'true' if tables['modulesLoadRechecks'] else 'false'}")
+	L.append('')
 	L.append('/-- SyntaxParserOfLark.__load_source appends a line feed to a text that does not end in one (both branches) -/')
 	L.append(f"def sourceCompletesNewline : Bool := {'true' if flags['sourceCompletesNewline'] else 'false'}")
 	L.append('')
@@ -467,10 +471,10 @@ def generate() -> list[dict[str, Any]]:
 	return [{
 		'file': os.path.relpath(OUT, os.path.dirname(GENERATED_DIR)),
 		'source': 'rogw/tranp/errors.py + except clauses of procedure.py / parser.py / bin/transpile.py + CPython builtins',
-		'entries': len(errs) + len(bis) + sum(len(v) for v in tables.values()),
+		'entries': len(errs) + len(bis) + sum(len(v) for k, v in tables.items() if k != 'modulesLoadRechecks'),
 		'errors_classes': len(errs),
 		'builtin_classes': len(bis),
-		'handlers': {k: len(v) for k, v in tables.items()},
+		'handlers': {k: len(v) for k, v in tables.items() if k != 'modulesLoadRechecks'},
 		'mem_branch_wrapped': bool(tables['parserMemHandlers']),
 		'modules_load_normalised': bool(tables['modulesLoadHandlers']),
 		'source_completes_newline': flags['sourceCompletesNewline'],
